@@ -2,7 +2,7 @@
 from engine import *
 import sym
 
-CONFIGS_QUICK = ["F_def"]
+CONFIGS_QUICK = ["F_def", "F_all"]  # every configuration whose cfg-gated code the property depends on
 CONFIGS_THOROUGH = ["F_def", "F_all"]
 TECHNIQUE = 'static analysis: exact value sets of byte predicates, extracted replacement and entity tables (inverse check), decision table of numeric character references'
 EXPLANATION = (
@@ -324,4 +324,49 @@ def r5_charref(ctx):
         ctx.ob("R5", "from_str_radix:std-reached", std >= 1, "the std parser is reached for unsigned input", config=cfg)
 
 
-RULES = [("R1", r1_sets), ("R2", r2_inverse), ("R2b", r2b_copy_discipline), ("R3", r3_borrowed), ("R4", r4_pairing), ("R5", r5_charref)]
+def r6_unescape_copies(ctx):
+    """unescape_with(): every byte of the input is either part of a resolved reference (replaced) or copied.  Round the
+    loop: the text since the previous reference, raw[last_end..start], is pushed before the replacement and last_end
+    becomes end + 1.  On the Owned exit the text after the last reference, raw[last_end..], is pushed."""
+    for cfg, F in ctx.facts.items():
+        b = ctx.body(F, "escape::unescape_with", "R6")
+        if b is None:
+            continue
+        nloop = nown = 0
+        for p in ctx.paths(b):
+            r = ret_of(p)
+            pushes = [c for c in calls(p) if name_is(c[2], "push_str", "push", "extend_from_slice", "write_str")]
+            if ends(p) == "loop":
+                nloop += 1
+                car = p[-1][2].get("last_end")
+                amp = [c for c in calls(p) if name_is(c[2], "find")]
+                semi = [c for c in calls(p) if name_is(c[2], "next") and not isinstance(c[1], tuple)]
+                ok = bool(pushes) and bool(amp) and bool(semi)
+                gap = False
+                if ok:
+                    startp = ("call", amp[0][1], amp[0][2], amp[0][3])
+                    endp = ("call", semi[-1][1], semi[-1][2], semi[-1][3])
+                    a0 = pushes[0][3][1]
+                    gap = has_subterm(a0, lambda s2: call_is(s2, "index") and s2[3][1][0] == "agg" and s2[3][1][2] == "Range"
+                                      and strip_wrappers(s2[3][1][3][0])[0] == "phi" and strip_wrappers(s2[3][1][3][0])[3] == "last_end"
+                                      and has_subterm(s2[3][1][3][1], lambda s3: s3 == startp))
+                    nxt = car is not None and car[0] == "bin" and car[1] == "Add" and strip_wrappers(car[3]) == ("c", "usize", 1) and has_subterm(car[2], lambda s3: s3 == endp)
+                    ok = gap and nxt and len(pushes) == 2
+                ctx.ob("R6", "unescape_with:loop:gap-then-replacement", ok, "each resolved reference: push raw[last_end..start], push the replacement, last_end = end + 1 (pushes %d, gap pushed %s, last_end %s)" % (len(pushes), gap, sym.show(car, 2) if car is not None else None), config=cfg)
+            elif r is not None and describe_ret(r, 1)[0][:2] == ("Ok", "Owned"):
+                nown += 1
+                g = [c for c in calls(p) if name_is(c[2], "get", "index") and c[3][1][0] == "agg" and c[3][1][2] == "RangeFrom"]
+                tail_ok = False
+                if g:
+                    G = ("call", g[-1][1], g[-1][2], g[-1][3])
+                    frm = strip_wrappers(g[-1][3][1][3][0])
+                    d = decision_on(p, lambda t: t[0] == "discr" and t[1] == G)
+                    pushed = any(has_subterm(c[3][1], lambda s2: s2 == G) for c in pushes)
+                    from_last = frm[0] == "phi" and frm[3] == "last_end" or frm == ("c", "usize", 0)
+                    tail_ok = from_last and (pushed if d == 1 else d is not None)
+                ctx.ob("R6", "unescape_with:owned:tail", tail_ok, "the text after the last reference, raw[last_end..], is appended before returning the owned result", config=cfg)
+        ctx.floor("R6", "resolved-reference back edges of unescape_with", nloop, 2, config=cfg)
+        ctx.floor("R6", "Owned exits of unescape_with", nown, 1, config=cfg)
+
+
+RULES = [("R1", r1_sets), ("R2", r2_inverse), ("R2b", r2b_copy_discipline), ("R3", r3_borrowed), ("R4", r4_pairing), ("R5", r5_charref), ("R6", r6_unescape_copies)]
